@@ -204,6 +204,12 @@ enum Built {
     B(ByAnother),
 }
 pub struct Items(Vec<Built>);
+impl Items {
+    /// any number of handler sets (ohkami's tuple impls stop at a fixed arity)
+    pub fn from_sets(sets: Vec<HandlerSet>) -> Self {
+        Items(sets.into_iter().map(Built::H).collect())
+    }
+}
 impl Routing<()> for Items {
     fn apply(self, target: &mut Ohkami) {
         for b in self.0 {
